@@ -625,6 +625,22 @@ class GLRParser(Parser):
                     if self.debug_trace:
                         self._trace_step_kill(head)
 
+    def default_error_recovery(self, head):
+        """
+        The default recovery strategy for GLR: search from the current
+        location for a position where any of the expected terminals is
+        recognized. All lookaheads found there are handled by the regular GLR
+        lookahead finding (the head is forked if there is more than one).
+
+        Returns True if successful, False otherwise.
+        """
+        while head.position < len(head.input_str):
+            head.position += 1
+            if self._next_tokens(head):
+                head.token_ahead = None
+                return True
+        return False
+
     def _remove_transient_state(self):
         """
         Delete references to transient parser objects to lower memory
